@@ -10,10 +10,11 @@ KNOWN = ["--known", os.path.join(VERIF, "known_findings.json")]
 JAVA = "-Xss64m -XX:ParallelGCThreads=2 -Xmn1g"
 
 
-def v1(name, replay, nf, nt, pays, types='{"Q"}', workers=6, timeout=1500, extra=None):
+def v1(name, replay, nf, nt, pays, types='{"Q"}', shape="flat", workers=6, timeout=1500, extra=None):
     """family V1 (MC_C02.tla): all spread graphs on nf fragments x payloads x spreads of the operation"""
     return tlc_replay("MC_C02_" + name, "MC_C02", replay,
-                      dict(constants={"NF": nf, "NT": nt, "PayIds": pays, "FragTypes": types, "Fam": '"V1"'},
+                      dict(constants={"NF": nf, "NT": nt, "PayIds": pays, "FragTypes": types, "Shape": '"%s"' % shape,
+                                      "Fam": '"V1"'},
                            invariants=["TheoremsHold"]),
                       workers=workers, timeout=timeout, java_opts=JAVA, replay_args=KNOWN + (extra or []))
 
@@ -36,12 +37,13 @@ def stages_for(replay, tier, extra=None):
             g("V3", replay, "V3", leafs="V3_Leafs", comps="V3_Comps", maxsel=2, maxnodes=2, maxdepth=2, extra=extra),
             g("V3d", replay, "V3", leafs="V3_Leafs", dirs="V3_Dirs", maxsel=1, maxnodes=1, maxdepth=1, extra=extra),
             g("V2", replay, "V2", decor="vdefs", leafs="V2_Leafs", dirs="V2_Dirs", frags="FragsF", spread="SpreadAny",
-              maxsel=2, maxnodes=2, maxdepth=1, extra=extra),
+              maxsel=2, maxnodes=2, maxdepth=1, extra=extra),                               # 3 654 documents
             g("V5", replay, "V5", decor="ops", leafs="V5_Leafs", inlines="V5_Inlines", dirs="V5_Dirs", frags="FragsF",
               spread="SpreadAny", maxsel=2, maxnodes=2, maxdepth=2, extra=extra),
-            v1("V1_1f", replay, 1, 2, "{1,2,3,4,5,6,7,8}", extra=extra),                    # 1 225 documents
-            v1("V1_2f", replay, 2, 2, "{1,2,5,6}", extra=extra),                            # 6 859
-            v1("V1_2f_QM", replay, 2, 2, "{1,7}", types='{"Q","M"}', extra=extra),          # 5 324
+            v1("V1_1f", replay, 1, 2, "{1,2,5,8}", extra=extra),                            # 361
+            v1("V1_1f_QM", replay, 1, 1, "{1,2,5,7}", types='{"Q","M"}', extra=extra),      # 162
+            v1("V1_2f", replay, 2, 2, "{1,2,5}", extra=extra),                              # 3 375
+            v1("V1_nest", replay, 2, 2, "{11,12}", types='{"O"}', shape="nested", extra=extra),   # 5 324
         ]
     return [
         g("V4", replay, "V4", leafs="V4_Leafs", comps="V4_Comps", inlines="V4_Inlines", maxsel=2, maxnodes=4, maxdepth=3,
@@ -53,9 +55,10 @@ def stages_for(replay, tier, extra=None):
         g("V5", replay, "V5", decor="ops", leafs="V5_Leafs", inlines="V5_Inlines", dirs="V5_Dirs", frags="FragsF",
           spread="SpreadAny", maxsel=2, maxnodes=3, maxdepth=2, extra=extra),
         v1("V1_1f", replay, 1, 2, "{1,2,3,4,5,6,7,8}", extra=extra),                        # 1 225
-        v1("V1_2f", replay, 2, 3, "{1,2,3,4,5,6}", extra=extra),                            # 166 375
+        v1("V1_2f", replay, 2, 3, "{1,2,5,6}", extra=extra),                                # 59 319
         v1("V1_2f_QM", replay, 2, 2, "{1,2,5,7}", types='{"Q","M"}', extra=extra),          # 28 899
-        v1("V1_3f", replay, 3, 3, "{1,2}", extra=extra),                                    # 279 841
+        v1("V1_3f", replay, 3, 3, "{1,2}", timeout=3000, extra=extra),                      # 279 841
+        v1("V1_nest", replay, 2, 2, "{11,12,15}", types='{"O"}', shape="nested", extra=extra),
     ]
 
 
